@@ -79,6 +79,8 @@ def run(prog, rep, tier):
     r6_6(prog, rep, pp)
     # R6.7 rows of groups seen in training keep their slots: the new-group block is decided from the factor's indicators alone
     shared.new_group_block(prog, rep, "R6.7")
+    # a new frame may hold a single observation: its blocks keep their row axis (C17's R17.10)
+    shared.no_axisless_squeeze(prog, rep, "R6.9")
     # center / scale / bs / poly freeze their parameters because the names resolve to formulae's stateful classes: a function
     # of the same name in the caller's namespace must not capture them (C11's R11.1 / R11.2, reported here as R6.8)
     from . import C11
